@@ -280,6 +280,8 @@ func runStateDB(r *hx.R, n int, w *hx.W, _ []string) error {
 		withPrecompile := r.Chance(2, 3)
 		steps := 4 + r.Pick(30)
 		committed := false
+		var forced []int
+		didForce := false
 		for i := 0; i < steps && !committed; i++ {
 			a := r.Pick(4)
 			addr := sdbAddrs[a]
@@ -297,7 +299,16 @@ func runStateDB(r *hx.R, n int, w *hx.W, _ []string) error {
 					w.Step("sdb misc", hx.Recover(func() string { return renderMisc(db) }))
 				}
 			}
-			switch ch := r.Pick(28); {
+			ch := r.Pick(28)
+			// aimed (once per history, sometimes): two precompile calls with nothing journaled in between — the second one inside a
+			// frame of its own that is then reverted (a failing call caught by the caller). Every call needs its own journal entry.
+			if withPrecompile && len(forced) == 0 && !didForce && r.Chance(1, 10) {
+				forced, didForce = []int{26, 20, 26, 23}, true
+			}
+			if len(forced) > 0 {
+				ch, forced = forced[0], forced[1:]
+			}
+			switch {
 			case ch < 4:
 				d := new(big.Int).Mul(e12, big.NewInt(r.Range(0, 20)))
 				if r.Chance(1, 5) {
